@@ -145,6 +145,24 @@ func probe(a arg) (string, string) {
 	if k, dt := chk("UnmarshalText", u, err); k != "" {
 		return k, dt
 	}
+	// the same bytes handed to every []byte input path one after the other (a caller that keeps its text): each path must
+	// still see the text the formatter produced
+	if a.D == 1 || a.D >= 28 || a.Heavy {
+		shared := []byte(want)
+		g, err = date.DefaultParser(shared, 0)
+		if k, dt := chk("DefaultParser[[]byte] on the caller's kept text", g, err); k != "" {
+			return k, dt
+		}
+		var u2 date.Date
+		err = u2.UnmarshalText(shared)
+		if k, dt := chk("UnmarshalText on the text a parser has already read", u2, err); k != "" {
+			return k, dt
+		}
+		g, err = date.DefaultParser(shared, 0)
+		if k, dt := chk("DefaultParser[[]byte] on the text two parsers have already read", g, err); k != "" {
+			return k, dt
+		}
+	}
 	if !a.Heavy {
 		return "", ""
 	}
